@@ -134,9 +134,11 @@ func importsOnlyAST(f *ast.File) bool {
 var confirmedFuncs = map[string]map[string]bool{
 	"runtime":                  set("EncodeVarint", "MarshalInputToOptions", "SizeInputToOptions", "Skip", "Sov", "Soz", "UnmarshalInputToOptions", "nestedRecursionLimit",
 		// the option-mapping rule evaluates helper calls itself (OPTS): nothing is inlined into these three
-		"!MarshalInputToOptions", "!SizeInputToOptions", "!UnmarshalInputToOptions"),
+		"!MarshalInputToOptions", "!SizeInputToOptions", "!UnmarshalInputToOptions",
+		// the Skip matcher recognises varint-reader functions itself
+		"!Skip"),
 	"anyutil":                  set("MarshalFrom", "New", "Unpack"),
-	"support/timepb":           set("Add", "AddStd", "Compare", "DurationIsNegative", "IsZero", "overflowPanic"),
+	// support/timepb is not normalised: its rules interpret calls of package functions themselves
 	"rapidproto":               set("GeneratorOptions.WithAnyTypes", "GeneratorOptions.WithDisallowNil", "GeneratorOptions.WithInterfaceHint", "GeneratorOptions.genAny", "GeneratorOptions.genDuration", "GeneratorOptions.genFieldMask", "GeneratorOptions.genScalarFieldValue", "GeneratorOptions.genTimestamp", "GeneratorOptions.setFieldValue", "GeneratorOptions.setFields", "MessageGenerator", "setSecondsNanosFields"),
 	"cmd/protoc-gen-go-pulsar": set("ObjectSet.Set", "ObjectSet.String", "generateAllFiles", "main", "rewriteMessageField"),
 }
